@@ -122,7 +122,11 @@ def r6(F):
         if callee(t) == BET + "::precedence_level":
             tgt = _ref_target(fn, t["args"][0])
             pl_calls[t["dest"]["l"]] = (b, tgt, named(tgt) if tgt is not None else set())
-    need(len(pl_calls) >= 3, "precedence_level calls not found in parse_op (%d)" % len(pl_calls))
+    need(len(pl_calls) >= 2, "precedence_level calls not found in parse_op (%d)" % len(pl_calls))
+    # a level hoisted into a local (`let op_level = op.precedence_level();`) is still that level
+    for l0 in list(pl_calls):
+        for c in util.copies_of(fn, l0, allow_not=False):
+            pl_calls.setdefault(c, pl_calls[l0])
     cmps = []
     for b, j, pl, rv, m in fn.assigns():
         if rv["k"] == "bin" and rv["op"] in ("Gt", "Ge", "Lt", "Le", "Eq", "Ne") and rv["ty"] == "u32":
